@@ -811,6 +811,8 @@ class Engine:
                 fty = ANY
             t = st.read_field(v.t, attr)
             w = sym.from_val(t, fty, self.reg)
+            if fty.kind in ("int", "str", "bool") or isinstance(w, (SEnum, SRec)):
+                st.assume(sym.type_constraint(t, fty, self.reg, shallow=True))  # stored data is well-typed (tags only)
             if isinstance(w, SRef):
                 st.assume(z3.And(w.t >= 0, w.t < st.heap.next_ref))
                 w.origin = attr  # provenance, used by the ownership ghost of `owning` dict fields
@@ -878,7 +880,7 @@ class Engine:
             def ext(eng, s, args, kw, label=label, attr=attr):
                 eng.externals_used.add(label)
                 s.log_event(attr, [a for a in args[1:] if not isinstance(a, (SFunc, SBuiltin))])
-                return [(s, eng.external_result(s, attr, label))]
+                return eng.external_outcomes(s, attr, label)
             return [(st, SBuiltin(label, ext, self_val=v))]
         raise Unsupported(f"attribute {attr} on {type(v).__name__} at {self.loc(node)}")
 
@@ -898,15 +900,15 @@ class Engine:
             k = sym.fresh_val("tk")
             dom = st.dom(w.t)
             if kty.kind in simple:
-                st.assume(z3.ForAll([k], z3.Implies(z3.Select(dom, k), sym.type_constraint(k, kty, self.reg, shallow=True)), patterns=[z3.Select(dom, k)]))
+                st.assume(sym.forall_pat([k], z3.Implies(z3.Select(dom, k), sym.type_constraint(k, kty, self.reg, shallow=True)), z3.Select(dom, k)))
             if ty.kind == "dict" and ty.v.kind in simple + ("dict", "set", "list"):
                 m = st.cmap(w.t)
-                st.assume(z3.ForAll([k], z3.Implies(z3.Select(dom, k), sym.type_constraint(z3.Select(m, k), ty.v, self.reg, shallow=True)), patterns=[z3.Select(m, k)]))
+                st.assume(sym.forall_pat([k], z3.Implies(z3.Select(dom, k), sym.type_constraint(z3.Select(m, k), ty.v, self.reg, shallow=True)), z3.Select(m, k)))
         else:
             i = sym.fresh_int("ti")
             sq = st.cseq(w.t)
             if ty.v.kind in simple:
-                st.assume(z3.ForAll([i], z3.Implies(z3.And(i >= 0, i < st.clen(w.t)), sym.type_constraint(z3.Select(sq, i), ty.v, self.reg, shallow=True)), patterns=[z3.Select(sq, i)]))
+                st.assume(sym.forall_pat([i], z3.Implies(z3.And(i >= 0, i < st.clen(w.t)), sym.type_constraint(z3.Select(sq, i), ty.v, self.reg, shallow=True)), z3.Select(sq, i)))
 
     def _owner_of(self, ci, attr):
         """name of the class that actually defines method attr (for contract keys)"""
@@ -1043,9 +1045,20 @@ class Engine:
         if isinstance(fv, SOpaque):
             # calling an unknown callable: recorded as an event, result unconstrained
             self.externals_used.add(f"call:{fv.label or 'opaque'}")
-            st.log_event("call:" + (fv.label or "opaque"), [a for a in args if not isinstance(a, (SFunc, SBuiltin))])
-            return [(st, SOpaque(label=(fv.label or "opaque") + "()"))]
+            short = (fv.label or "opaque").split(".")[-1]
+            st.log_event(short, [a for a in args if not isinstance(a, (SFunc, SBuiltin))])
+            return self.external_outcomes(st, short, fv.label)
         raise Unsupported(f"call of {fv!r} at {self.loc(node)}")
+
+    def external_outcomes(self, st, attr, label=""):
+        """normal result plus one raising outcome per exception class the sidecar declares for this external name"""
+        out = []
+        for en in (self.contracts.external_raises.get(attr, []) if self.contracts is not None else []):
+            s2 = st.copy()
+            s2.assume(z3.Bool(sym.fresh_name(f"ext_{attr}_raises_{en}")))
+            out.append((self.raise_(s2, en, f"external {attr}"), None))
+        out.append((st, self.external_result(st, attr, label)))
+        return out
 
     def external_result(self, st, attr, label=""):
         """result of a call that leaves the repository: typed by the sidecar's external_returns table (else opaque) and
@@ -1414,8 +1427,48 @@ class Engine:
             return [self.raise_(st, "AttributeError", f"frozen {obj.ci.name}.{attr}")]  # FrozenInstanceError
         raise Unsupported(f"attribute store on {type(obj).__name__} at {self.loc(node)}")
 
+    def agg_contrib(self, st, name, obj_t):
+        """contribution of object obj_t to the ghost aggregate `name` in state st (a z3 Int)"""
+        a = self.contracts.aggregates[name]
+        lam = a["contrib"]
+        mi = self.fe.module(a["module"])
+        tmp = st.copy()
+        self.fe.class_info(a["module"], a["cls"])
+        tmp.frames = [Frame({lam.args.args[0].arg: SRef(obj_t, TClass(a["cls"]))}, mi, "<aggregate>")]
+        saved = self.pure
+        self.pure = True
+        try:
+            (s2, v), = self.ev(lam.body, tmp, 0)
+        finally:
+            self.pure = saved
+        return v.t
+
+    def agg_value(self, st, name):
+        key = "agg:" + name
+        if key not in st.ghost:
+            st.ghost[key] = z3.Int(f"agg0_{name}")  # deterministic: the same initial value in every copy of the state
+        return st.ghost[key]
+
+    def agg_member_fact(self, st, name, obj_t, contrib):
+        """A-sum: a sum of non-negative contributions is at least each contribution of a held object, and non-negative.
+        (arithmetic fact about the meaning of the ghost; the non-negativity of contributions is part of the class invariant)"""
+        a = self.contracts.aggregates[name]
+        held = Val.bval(st.read_field(obj_t, f"__in_{a['over']}"))
+        st.assume(z3.Implies(z3.And(held, contrib >= 0), self.agg_value(st, name) >= contrib))
+
     def store_field(self, st, obj_t, attr, v):
+        touched = []
+        if self.contracts is not None:
+            for name, a in self.contracts.aggregates.items():
+                if attr in a["fields"]:
+                    before = self.agg_contrib(st, name, obj_t)
+                    self.agg_member_fact(st, name, obj_t, before)
+                    touched.append((name, a, before))
         st.write_field(obj_t, attr, v.val())
+        for name, a, before in touched:
+            after = self.agg_contrib(st, name, obj_t)
+            held = Val.bval(st.read_field(obj_t, f"__in_{a['over']}"))
+            st.ghost["agg:" + name] = self.agg_value(st, name) + z3.If(held, after - before, 0)
         if self.contracts is not None and attr in self.contracts.owned_fields and isinstance(v, SRef):
             st.write_field(v.t, f"__owner_{attr}", Val.ref(obj_t))  # ghost: the container knows its owner
 
